@@ -17,3 +17,42 @@ def c16_block_gap_find_crash(sig, case):
 def c16_stmt_hole_no_backtracking(sig, case):
     """a statement hole followed by a pattern that already matches the statement the hole should consume"""
     return sig.get("monitor") == "find" and sig.get("kind") == "missing_match" and sig.get("mechanism") == "stmt_hole_lookahead_no_backtracking"
+
+
+# ---------------------------------------------------------------- scheduling stream (C01, C04, C10, C12)
+def _diag(sig):
+    return sig.get("diag") or {}
+
+
+def window_alias_effects(sig, case):
+    """exo's effect analysis attributes accesses made through a WindowStmt alias to the
+    alias name and treats a WindowStmt as no binder; any effect-based safety check is
+    then blind when one buffer is live under two names (with a write)"""
+    return bool(_diag(sig).get("live_window_alias")) and sig.get("monitor") in ("equiv", "safety", "validate", "simplify-trace", "validate-subproc")
+
+
+def fission_assign_then_reduce(sig, case):
+    """fission accepted although the loop-invariant pre-gap block assigns a location the
+    post-gap block reduces into (Commutes_Fissioning's a1_no_loop_var relaxation)"""
+    d = _diag(sig)
+    return sig.get("op") == "fission" and sig.get("kind") in ("diff", "poison") and d.get("pre_assigns_what_post_reduces") and not d.get("pre_mentions_iter")
+
+
+def autofission_unchecked(sig, case):
+    """autofission (DoFissionLoops) performs no commutativity check: the checked variant
+    `fission` refuses the same split"""
+    d = _diag(sig)
+    return sig.get("op") == "autofission" and bool(d.get("fission_rejects"))
+
+
+def stage_mem_partial_write_no_load(sig, case):
+    """stage_mem: the block writes part of a slice window and never reads it; the load is
+    skipped but the store copies the whole window back (uninitialised cells)"""
+    d = _diag(sig)
+    return sig.get("op") == "stage_mem" and d.get("block_writes_never_reads") and d.get("slice_window") and sig.get("kind") in ("diff", "poison", "e2e:poison")
+
+
+# ---------------------------------------------------------------- C05
+def c05_unify_ignores_asserts(sig, case):
+    """Unification does not check the callee's assertions (TODO 'Asserts' in LoopIR_unification.py)"""
+    return sig.get("monitor") == "replace" and sig.get("variant") == "strict" and sig.get("kind") == "event:call_pred"
